@@ -76,3 +76,12 @@ Theorem C15_SO3_slerp_one eps A B : 0 < eps -> so3_valid A -> so3_valid B ->
   @interpolate_slerp RS (SO3 RS eps) A B 1 = Ok B \/ @interpolate_slerp RS (SO3 RS eps) A B 1 = Ok (@vneg RS B).
 Proof. intros H. exact (so3_slerp_one eps H A B). Qed.
 Print Assumptions C15_SO3_slerp_one.
+
+(* SE3: the same — SLERP is A at t = 0 and B with its quaternion up to sign at t = 1 *)
+From Manif Require Import SE3 Interp_SE3.
+Theorem C15_SE3_slerp_zero eps A B : 0 < eps -> se3_valid A -> se3_valid B -> @interpolate_slerp RS (SE3 RS eps) A B 0 = Ok A.
+Proof. intros H. exact (se3_slerp_zero eps H A B). Qed.
+Theorem C15_SE3_slerp_one eps A B : 0 < eps -> se3_valid A -> se3_valid B ->
+  (forall tx ty tz x y z w, se3_compose RS eps (se3_inverse RS A) B = [tx; ty; tz; x; y; z; w] -> eps < x * x + y * y + z * z /\ w <> 0) ->
+  @interpolate_slerp RS (SE3 RS eps) A B 1 = Ok B \/ @interpolate_slerp RS (SE3 RS eps) A B 1 = Ok (firstn 3 B ++ @vneg RS (skipn 3 B)).
+Proof. intros H. exact (se3_slerp_one eps H A B). Qed.
